@@ -131,3 +131,140 @@ Proof.
   - lia.
   - exists w; auto.
 Qed.
+
+(* ---------------------------------------------------------------- a sequence of out-of-place publications *)
+Section Publications.
+  Variables (cl : bool) (tfd : fd) (p : path).
+
+  Definition pub_trace (f : frag) : list tstep := frag_trace cl tfd f false None.
+  Definition seq_trace (pubs : list frag) : list tstep := flat_map pub_trace pubs.
+
+  (* version i of the data file: 0 = what was there, i = what publication i wrote *)
+  Definition ver (pubs : list frag) (st : state) (i : nat) : option content :=
+    match i with
+    | 0 => lookup st p
+    | S i' => match nth_error pubs i' with Some f => Some (new_text f) | None => None end
+    end.
+
+  (* number of publications completed after j calls *)
+  Fixpoint done_count (pubs : list frag) (j : nat) : nat :=
+    match pubs with
+    | [] => 0
+    | f :: r => if length (pub_trace f) <=? j then S (done_count r (j - length (pub_trace f))) else 0
+    end.
+
+  Lemma nofault_shape : forall f,
+    pub_trace f = ok (Creat tfd (ftmp f) 438%N) :: spath tfd f ++ [ok (Rename (ftmp f) (fpath f))].
+  Proof.
+    intros f. unfold pub_trace, frag_trace. rewrite plan_eq.
+    change (inject ((Creat tfd (ftmp f) 438%N, []) :: apart cl tfd f ++ [last_entry f false]) None)
+      with (ok (Creat tfd (ftmp f) 438%N) :: inject (apart cl tfd f ++ [last_entry f false]) None).
+    destruct (tail_cases cl tfd f false None) as [(_ & M) | (_ & _ & ET)]; [discriminate|].
+    now rewrite ET.
+  Qed.
+
+  (* before its last call a publication has not changed anything but its temporary file *)
+  Lemma pub_incomplete : forall f j st q, fs_wf st -> names st (ftmp f) = None -> q <> ftmp f ->
+    j < length (pub_trace f) -> lookup (run (firstn j (pub_trace f)) st) q = lookup st q.
+  Proof.
+    intros f j st q W Hn Hq Hj. rewrite nofault_shape in *.
+    assert (HL : length (ok (Creat tfd (ftmp f) 438%N) :: spath tfd f ++ [ok (Rename (ftmp f) (fpath f))]) = S (length (spath tfd f) + 1))
+      by (cbn [length]; rewrite app_length; reflexivity).
+    rewrite HL in Hj.
+    destruct j as [|j]; [reflexivity|].
+    rewrite firstn_cons, run_cons. rewrite firstn_app_le by lia.
+    destruct (creat_fresh st tfd (ftmp f) 438%N W Hn) as (O1 & _ & _ & _ & K1).
+    destruct (local_run tfd (ftmp f) (firstn j (spath tfd f)) _ O1
+                (Forall_firstn _ _ _ j (spath_local cl tfd f))) as (_ & K2).
+    destruct (K2 q Hq) as (A & _). destruct (K1 q Hq) as (B & _). congruence.
+  Qed.
+
+  Opaque pub_trace.
+
+  Lemma done_count_mono : forall pubs j j', j <= j' -> done_count pubs j <= done_count pubs j'.
+  Proof.
+    induction pubs as [|f r IH]; intros j j' H; simpl; auto.
+    destruct (Nat.leb_spec (length (pub_trace f)) j), (Nat.leb_spec (length (pub_trace f)) j'); try lia.
+    apply le_n_S. apply IH. lia.
+  Qed.
+
+  Lemma done_count_le : forall pubs j, done_count pubs j <= length pubs.
+  Proof.
+    induction pubs as [|f r IH]; intros j; simpl; auto.
+    destruct (length (pub_trace f) <=? j); [apply le_n_S; auto|lia].
+  Qed.
+
+  Definition pubs_ok (pubs : list frag) (st : state) : Prop :=
+    fs_wf st /\ NoDup (map ftmp pubs) /\
+    forall f, In f pubs -> fpath f = p /\ ftmp f <> p /\ lookup st (ftmp f) = None.
+
+  Transparent pub_trace.
+
+  (* at every instant the data file holds exactly version done_count(j) *)
+  Lemma seq_version : forall pubs st j, pubs_ok pubs st ->
+    lookup (crash (seq_trace pubs) j st) p = ver pubs st (done_count pubs j).
+  Proof.
+    induction pubs as [|f r IH]; intros st j (W & ND & H).
+    - unfold crash, seq_trace. simpl. now rewrite firstn_nil.
+    - destruct (H f (or_introl eq_refl)) as (Ep & Tp & Tn).
+      assert (Hn : names st (ftmp f) = None) by now apply lookup_none.
+      inversion ND; subst.
+      unfold crash, seq_trace. cbn [flat_map done_count]. fold (seq_trace r).
+      destruct (Nat.leb_spec (length (pub_trace f)) j) as [L | L].
+      + rewrite firstn_app_ge by auto. rewrite run_app.
+        assert (Hd : ftmp f <> fpath f) by (rewrite Ep; auto).
+        destruct (frag_prefix cl tfd f false None (length (pub_trace f)) st W Hn Hd) as (W1 & U1 & _ & _ & D5).
+        fold (pub_trace f) in W1, U1, D5. rewrite firstn_all in W1, U1, D5.
+        set (s1 := run (pub_trace f) st) in *.
+        assert (OK1 : pubs_ok r s1).
+        { split; [exact W1|]. split; [assumption|]. intros g Hg. destruct (H g (or_intror Hg)) as (A & B & C).
+          repeat split; auto. rewrite U1; auto.
+          - intros E. apply H2. rewrite <- E. now apply in_map.
+          - rewrite Ep. auto. }
+        specialize (IH s1 (j - length (pub_trace f)) OK1). unfold crash in IH. rewrite IH.
+        destruct (done_count r (j - length (pub_trace f))) as [|i] eqn:DC; cbn [ver nth_error].
+        * rewrite <- Ep. apply D5; auto.
+        * reflexivity.
+      + rewrite firstn_app_le by lia. cbn [ver]. apply pub_incomplete; auto.
+  Qed.
+End Publications.
+
+Lemma done_count_bounds : forall cl tfd pubs j j', j <= j' ->
+  done_count cl tfd pubs j <= done_count cl tfd pubs j' /\ done_count cl tfd pubs j' <= length pubs.
+Proof. intros; split; [apply done_count_mono; auto|apply done_count_le]. Qed.
+
+Definition at_ (d : fd) (p : path) (chunks : list content) (st : state) (j : nat) : content :=
+  content_at (crash (writer_trace d p chunks) j st) p.
+
+Lemma nframes_monotone_lemma : forall d p chunks st fsz, fs_wf st -> fsz <> 0 ->
+  forall j j', j <= j' -> nframes fsz (at_ d p chunks st j) <= nframes fsz (at_ d p chunks st j').
+Proof. intros. apply nframes_prefix_mono; auto. apply writer_prefix; auto. Qed.
+
+Lemma prefix_consistent_lemma : forall d p chunks st fsz, fs_wf st -> fsz <> 0 ->
+  forall j f, f < nframes fsz (at_ d p chunks st j) ->
+  frame fsz (at_ d p chunks st j) f = frame fsz (content_at st p ++ concat chunks) f.
+Proof. intros. apply frame_prefix; auto. apply writer_prefix_final; auto. Qed.
+
+Lemma no_partial_lemma : forall d p chunks st fsz, fsz <> 0 ->
+  forall j f, f < nframes fsz (at_ d p chunks st j) -> length (frame fsz (at_ d p chunks st j) f) = fsz.
+Proof. intros. apply frame_complete; auto. Qed.
+
+Lemma never_absent_in_place_lemma : forall d p chunks st, fs_wf st ->
+  forall j, lookup (crash (writer_trace d p chunks) (S j) st) p <> None.
+Proof. intros. apply writer_content; auto. Qed.
+
+Lemma never_absent_oop_lemma : forall cl tfd f k j st, scen_ok [f] st -> lookup st (fpath f) <> None ->
+  (lookup (crash (mf_trace cl tfd [f] false k) j st) (fpath f) = lookup st (fpath f) \/
+   lookup (crash (mf_trace cl tfd [f] false k) j st) (fpath f) = Some (new_text f)) /\
+  lookup (crash (mf_trace cl tfd [f] false k) j st) (fpath f) <> None.
+Proof.
+  intros cl tfd f k j st S H.
+  destruct (crash_atomic_lemma cl tfd [f] k j st S f (or_introl eq_refl)) as [E | E]; rewrite E; split; auto; discriminate.
+Qed.
+
+Lemma long_lived_refuted_lemma : forall P : Prop,
+  (P -> forall sz c r s0 n, sz <> 0 -> aligned sz r -> aligned sz (snd (rd_read false sz c r s0 n))) -> ~ P.
+Proof.
+  intros P H HP. specialize (H HP 2 dz_c1 (mkrd 0 0) 0 10 ltac:(discriminate) eq_refl).
+  vm_compute in H. discriminate.
+Qed.
